@@ -175,8 +175,13 @@ func newFloat(c Cfg) any {
 
 // New builds a fresh container (a pointer, as an any).
 func New(c Cfg) any {
-	if c.Elem == "float" {
+	switch c.Elem {
+	case "float":
 		return newFloat(c)
+	case "any":
+		return newOf[any](c, cmpA(c.Cmp))
+	case "uint8":
+		return newOf[U](c, cmpU(c.Cmp))
 	}
 	f := cmpE(c.Cmp)
 	switch c.Kind {
@@ -335,16 +340,31 @@ type Runner struct {
 func NewRunner(c Cfg) *Runner {
 	o := New(c)
 	r := &Runner{Cfg: c, Obj: o, v: reflect.ValueOf(o), elemT: eType}
-	if c.Elem == "float" {
+	switch c.Elem {
+	case "float":
 		r.elemT = fType
+	case "any":
+		r.elemT = aType
+	case "uint8":
+		r.elemT = uType
 	}
 	return r
 }
 
 // elemValue synthesises an element of the runner's element type.
 func (r *Runner) elemValue(x int) reflect.Value {
-	if r.elemT == fType {
+	switch {
+	case r.elemT == fType:
 		return reflect.ValueOf(felem(x))
+	case r.elemT == aType:
+		if a := aelem(x); a != nil {
+			return reflect.ValueOf(a)
+		}
+		return reflect.Zero(aType) // the nil interface value
+	case r.elemT == uType:
+		return reflect.ValueOf(uelem(x))
+	case r.Cfg.Elem == "int13":
+		return reflect.ValueOf(E(mod(x, isoN)))
 	}
 	return reflect.ValueOf(elem(x))
 }
@@ -352,6 +372,15 @@ func (r *Runner) elemValue(x int) reflect.Value {
 // toInt reads an integer out of an int- or float-kinded value (callbacks get both).
 func toInt(v reflect.Value) int {
 	switch v.Kind() {
+	case reflect.Interface:
+		if v.IsNil() {
+			return 0
+		}
+		return rankA(v.Interface())
+	case reflect.Uint8:
+		return int(v.Uint())
+	case reflect.Invalid:
+		return 0
 	case reflect.Float64, reflect.Float32:
 		f := v.Float()
 		if f != f || f > 1e9 || f < -1e9 {
@@ -415,7 +444,42 @@ func (r *Runner) norm1(method string, v reflect.Value) any {
 			return head + "\n" + strings.Join(toks, " ")
 		}
 		return s
+	case reflect.Uint8:
+		return int64(v.Uint())
 	case reflect.Slice:
+		if v.Type().Elem() == uType {
+			xs := make([]int, v.Len())
+			for i := range xs {
+				xs[i] = int(v.Index(i).Uint())
+			}
+			if unordered {
+				sort.Ints(xs)
+			}
+			return fmt.Sprint(xs)
+		}
+		if v.Type().Elem() == aType {
+			// elements of the domain by their rank (the int image of the value, cf. IsoCheck), others by their printed form
+			xs := make([]string, v.Len())
+			ranks := make([]int, 0, v.Len())
+			for i := range xs {
+				n := r.norm1(method, v.Index(i))
+				if k, ok := n.(int64); ok {
+					ranks = append(ranks, int(k))
+				}
+				xs[i] = fmt.Sprint(n)
+			}
+			sorted := unordered || (r.Cfg.Kind == "binaryheap" || r.Cfg.Kind == "priorityqueue") && method == "ToJSON"
+			if len(ranks) == len(xs) { // domain elements only: exactly the text of the int image
+				if sorted {
+					sort.Ints(ranks)
+				}
+				return fmt.Sprint(ranks)
+			}
+			if sorted {
+				sort.Strings(xs)
+			}
+			return "[" + strings.Join(xs, " ") + "]"
+		}
 		if v.Type().Elem().Kind() == reflect.Uint8 { // []byte: JSON
 			b := v.Bytes()
 			if unordered {
@@ -464,8 +528,16 @@ func (r *Runner) norm1(method string, v reflect.Value) any {
 		}
 		return "slice:" + v.Type().String()
 	case reflect.Interface:
-		if v.IsNil() {
-			return nil
+		if r.elemT == aType && v.Type() == aType {
+			// an element: its rank in the domain (so that the "any" and the "int13"
+			// instantiations normalise alike), foreign values by their printed form
+			if v.IsNil() {
+				return int64(0)
+			}
+			if k := rankA(v.Interface()); k < len(anyElems) {
+				return int64(k)
+			}
+			return "foreign:" + textA(v.Interface())
 		}
 		if err, ok := v.Interface().(error); ok {
 			return "error:" + errClass(err)
@@ -521,6 +593,9 @@ func (r *Runner) doOnce(s Step) (res Result) {
 	m := r.v.MethodByName(s.M)
 	if !m.IsValid() {
 		return Result{Why: "no such method"}
+	}
+	if r.Cfg.Elem == "any" && s.B != nil && nestedJSON(s.B) {
+		return Result{Why: "a nested array/object would become an uncomparable element"}
 	}
 	mt := m.Type()
 	rw := &raw{r: s.R}
@@ -623,7 +698,7 @@ func (r *Runner) driveIterator(it reflect.Value, calls []string, rw *raw) []stri
 			log = append(log, fmt.Sprintf("%s=%v", name, valid))
 		case "Value", "Key", "Index":
 			if valid {
-				log = append(log, fmt.Sprintf("%s=%v", name, m.Call(nil)[0].Interface()))
+				log = append(log, fmt.Sprintf("%s=%v", name, r.norm1(name, m.Call(nil)[0])))
 			}
 		case "Node":
 			if valid {
@@ -656,7 +731,17 @@ func (r *Runner) synth(pt reflect.Type, rw *raw, size int, s Step) (reflect.Valu
 		if mod(k, 5) == 0 {
 			return r.v, true
 		}
-		peer := reflect.ValueOf(New(r.Cfg))
+		pc := r.Cfg
+		if mod(k, 7) == 3 && pc.Cmp != "" {
+			// a peer ordered by ANOTHER comparator: documented use of the TreeSet algebra
+			// (the result is then the empty set)
+			if pc.Cmp == dom.Rev {
+				pc.Cmp = dom.Nat
+			} else {
+				pc.Cmp = dom.Rev
+			}
+		}
+		peer := reflect.ValueOf(New(pc))
 		if add := peer.MethodByName("Add"); add.IsValid() {
 			n := mod(k, 6)
 			vals := make([]reflect.Value, n)
@@ -724,6 +809,22 @@ func (r *Runner) makeFunc(ft reflect.Type, rw *raw) reflect.Value {
 					res = mod(x+y, 3) == mod(b, 3)
 				}
 				out[i] = reflect.ValueOf(res)
+			case ot == aType || ot == uType || ot == eType && r.Cfg.Elem == "int13":
+				v := mod(a, 4)*y + mod(b, 3)*x + i
+				if mod(a, 3) == 0 {
+					v = mod(v, 4) // many-to-one
+				}
+				switch {
+				case ot == uType:
+					out[i] = reflect.ValueOf(U(mod(v, 256)))
+				case ot == eType:
+					out[i] = reflect.ValueOf(E(mod(v, isoN)))
+				default:
+					out[i] = reflect.Zero(aType)
+					if e := anyElems[mod(v, isoN)]; e != nil {
+						out[i] = reflect.ValueOf(&e).Elem()
+					}
+				}
 			case ot == eType || ot == fType:
 				v := mod(a, 4)*y + mod(b, 3)*x + i
 				if mod(a, 3) == 0 {
